@@ -208,6 +208,13 @@ pub open spec fn shielddrop_code(d: Option<ShieldDrop>) -> u32 { match d { None 
 	ensures
 		res is Ok ==> (res->Ok_0 is Some) == (playertype_of(be_u8(v0@, 1)) is Some) /*[C05.player_listed_iff_type_human_cpu_demo]*/,
 		res is Ok && res->Ok_0 is Some ==> player_fields_ok(res->Ok_0->Some_0, port, v0@, is_teams, opt_arr(v1_0), opt_arr(v1_3), opt_arr(v3_9_name), opt_arr(v3_9_code), opt_arr(v3_11)) /*[C05.player_fields]*/,
+		// the fixed-width text fields once more on their own (property C19): a listed player has its name tag / netplay name and code exactly
+		// when the block carries them, decoded up to the first NUL - so an undecodable field cannot come back as "absent", only as an error
+		res is Ok && res->Ok_0 is Some ==> ((res->Ok_0->Some_0.name_tag is Some) == (opt_arr(v1_3) is Some)
+			&& (opt_arr(v1_3) is Some ==> field_text(opt_arr(v1_3)->Some_0) == Some(res->Ok_0->Some_0.name_tag->Some_0.0@))) /*[C19.name_tag_decoded_or_error]*/,
+		res is Ok && res->Ok_0 is Some ==> ((res->Ok_0->Some_0.netplay is Some) == (opt_arr(v3_9_name) is Some && opt_arr(v3_9_code) is Some)
+			&& (res->Ok_0->Some_0.netplay is Some ==> field_text(opt_arr(v3_9_name)->Some_0) == Some(res->Ok_0->Some_0.netplay->Some_0.name.0@)
+				&& field_text(opt_arr(v3_9_code)->Some_0) == Some(res->Ok_0->Some_0.netplay->Some_0.code.0@))) /*[C19.netplay_text_decoded_or_error]*/,
 //@end
 
 // ---- Game Start: contract transcribed from spec/game_start_layout.json (offsets index the raw block) ----
